@@ -149,6 +149,11 @@ def _gen_elem(rng, scope, depth, o):
             used.add(pfx)
             decls.append([pfx, uri])
             scope[pfx] = uri
+    if o.get('xml_prefix_decl') and rng.random() < o['xml_prefix_decl']:
+        # the one legal declaration of the `xml` prefix (expat reports it as START_NS('xml', XML_NS)); not put
+        # into `scope`: names in the XML namespace are generated separately (xml:lang, ...).  Opt-in, so that
+        # the documents of callers that do not ask for it are unchanged.
+        decls.append(['xml', XML_NS])
     # element name: a namespace reachable in this scope
     choices = []
     if not scope.get(''):
@@ -577,6 +582,9 @@ def doc_stats(doc):
                 tags.add('redundant-decl')
             if not pfx and not uri:
                 tags.add('undeclared-default')
+            if pfx == 'xml':
+                tags.add('xml-prefix-declared')
+                continue
             if uri and [p for p, u in sc.items() if u == uri and p != pfx]:
                 tags.add('several-prefixes-per-uri')
             sc[pfx] = uri
